@@ -25,6 +25,13 @@ PROP = {'rule': 'rapid-generated cases, one unit per package. '
          'quota additionally checks every late quota creation as a restart right before it: the rebuilt manager (pods parked in the '
          'default quota, bound ones through the fail-over branch) and the live one both get the quota add and the migration tick '
          'and must agree with each other and the model. '
+         'reservation additionally marks Reservations terminating (deletionTimestamp + finalizer, still Available, still owning their '
+         'pods). quotaplugin drives the real ElasticQuota Plugin (OnQuotaAdd/ReplaceQuotas, OnPodAdd/Update/Delete, '
+         'Reserve/Unreserve, the real migrateDefaultQuotaGroupsPod) with the MultiQuotaTree gate on: quotas of the default tree and '
+         'of 1-2 named trees (root quota with 0-2 children), late quota creation checked as a restart right before it, and, in a '
+         'third of the crash points, a drawn subset of the quota objects delivered after the pod events (parking + migration); '
+         'model: every pod is held by exactly one quota (its own in its own tree, or the default quota of the default tree) and '
+         'bound pods are charged there and to the ancestors. '
          'numaPersistDecode: arbitrary PodAllocation values through preBindObject and the event handler. '
          'distinct = FNV-64 fingerprint of the full case.',
  'assumptions': ['strings carried in annotations (device ids, bus ids, reservation names/uids) are valid UTF-8, as everything that '
@@ -45,6 +52,8 @@ PROP = {'rule': 'rapid-generated cases, one unit per package. '
                  'restart the quotas that exist are known before any pod event (quota informer + ReplaceQuotas hook run before the '
                  'main informers, cmd/koord-scheduler/app/server.go steps 1-3), a pod precedes its quota only when the quota is '
                  'created later; the migration tick is assumed to have run before a crash point is compared',
+                 "quotaplugin: the live plugin's own bind event is delivered before its migration ticks or it is compared (while it "
+                 'is outstanding the cross-tree migration transiently shows a reserved pod as not charged; the bind event repairs it)',
                  'Go map iteration inside koordinator (hint merging, device scoring ties) is not controlled; it can change which '
                  'allocation a cycle picks, not the verdict'],
  'units': [{'name': 'codecs',
@@ -68,7 +77,11 @@ PROP = {'rule': 'rapid-generated cases, one unit per package. '
            {'name': 'quota',
             'pkg': 'pkg/scheduler/plugins/elasticquota/core',
             'files': ['C19/c19_quota_test.go'],
-            'tests': [{'run': 'TestVerifC19QuotaReplay', 'quick': 800, 'thorough': 2000, 'steps': 25}]}],
+            'tests': [{'run': 'TestVerifC19QuotaReplay', 'quick': 800, 'thorough': 2000, 'steps': 25}]},
+           {'name': 'quotaplugin',
+            'pkg': 'pkg/scheduler/plugins/elasticquota',
+            'files': ['C19/c19_quotaplugin_test.go'],
+            'tests': [{'run': 'TestVerifC19QuotaPluginReplay', 'quick': 600, 'thorough': 2000, 'steps': 25}]}],
  'manifest': {'technique': 'property-based testing (rapid): round-trip and decode-idempotence of the bind-time annotation codecs; '
                            'model-based state machines whose every prefix is replayed into a fresh cache (differential live vs fresh '
                            'plus an explicit reference model)',
